@@ -149,8 +149,9 @@ Definition ev_legal (tv : tview) (e : event) : bool :=
       | SDetached => true
       | _ => match (match old with Some o => ts_att o | None => ANone end) with
              | ANone => (cid =? 0) || kmem tc_id cid (tcs tv)   (* attaches only to a circuit Tor has *)
-             | AOn c => cid =? c                                 (* changes circuit only through DETACHED *)
-             | ADangling => false                                (* its circuit is gone: only DETACHED/CLOSED/FAILED follow *)
+             | AOn c => (cid =? c) || (cid =? 0)   (* stays, or Tor reports it on no circuit any more (circuit id 0); it
+                                                      moves to another circuit only through that or DETACHED *)
+             | ADangling => cid =? 0               (* its circuit is gone: circuit id 0, or DETACHED/CLOSED/FAILED follow *)
              end
       end
   end.
